@@ -1,5 +1,6 @@
 import NxProofs.RmcClient
 import NxProofs.RmcClientX
+import NxProofs.RmcClientMulti
 /-!
 # C10 — each remote call gets its own response, whatever the interleaving
 
@@ -240,6 +241,70 @@ theorem answers_are_to_dispatched_requests (k : Nat) (ops : List XOp) :
   have := xrun_answered (xinit 1 k) ops [] (by simp [xinit]) (by simp [answeredIds])
   simpa using this
 
+/-! ## several connections in one process (`BackEndClient.login` holds the authentication and the secure connection;
+    a server holds one `RMCClient` per peer): `__init__` gives every client object its own counter, `requests`,
+    `responses`, `servers` and `closed`, and no method touches anything but `self` — so the process is the list of its
+    connection states (`NxModel/Nex/RmcClientMulti.lean`) and an atomic section of connection `c` is `xstep` on the
+    `c`-th element. All connections count their calls from 1: equal call ids are outstanding on several connections. -/
+
+/-- every connection of a process behaves as if it were alone: in any interleaving of the atomic sections of any
+    number of connections, the state and the outputs of connection `c` are those of the single-connection machine on
+    `c`'s own sections. Every theorem above therefore holds for each connection of a process with many. -/
+theorem connections_independent (ks : List Nat) (ops : List MOp) (c : Nat) (hc : c < ks.length) :
+    (mrun (minit 1 ks) ops).1[c]? = some (xrun (xinit 1 ks[c]) (opsOf c ops)).1 ∧
+      outsOf c (mrun (minit 1 ks) ops).2 = (xrun (xinit 1 ks[c]) (opsOf c ops)).2 :=
+  mrun_conn _ ops c _ (minit_get 1 ks c hc)
+
+/-- whatever another connection does — registers a call under an id outstanding here, receives a response, a stray
+    or a request carrying such an id, is closed by its peer or locally, resumes a task, ends a hook or a handler —
+    this connection's state is not touched and nothing is output on it -/
+theorem other_connection_is_inert (ms : List XState) (o : MOp) (c : Nat) (h : o.conn ≠ c) :
+    (mstep ms o).1[c]? = ms[c]? ∧ outsOf c (mstep ms o).2 = [] :=
+  mstep_other ms o c h
+
+/-- the request ids and completions of the calls of connection `c` are those of the core machine on `c`'s own core
+    ops (its peer's requests removed): `C10_refines_spec`, `dup_unknown_inert`, ... apply to it verbatim -/
+theorem calls_of_a_connection_see_only_it (ks : List Nat) (ops : List MOp) (c : Nat) (hc : c < ks.length) :
+    coreOuts (outsOf c (mrun (minit 1 ks) ops).2)
+      = (run init ((coreOps (opsOf c ops)).filter fun op => op != .recvRequest)).2 := by
+  rw [(connections_independent ks ops c hc).2]
+  exact (peer_requests_affect_no_caller ks[c] (opsOf c ops)).2
+
+/-- no cross-talk between connections: a call that completes on connection `c` was told "closed", or was
+    response-less, or returns exactly the outcome of a response that was received ON CONNECTION `c` and whose call id
+    is the id its own request carried — never something received on another connection, whatever ids that one uses -/
+theorem no_cross_talk_between_connections (ks : List Nat) (ops : List MOp) (c : Nat) (hc : c < ks.length)
+    (hd : distinctLive init ((coreOps (opsOf c ops)).filter fun op => op != .recvRequest) = true) (t : Nat) (o : Outcome)
+    (h : (c, XOut.core (.done t o)) ∈ (mrun (minit 1 ks) ops).2) :
+    o = .closed ∨ o = .none ∨
+      ∃ id m, (c, XOut.core (.sent t id)) ∈ (mrun (minit 1 ks) ops).2 ∧
+        (⟨c, .core (.recvResponse m)⟩ : MOp) ∈ ops ∧ m.callId = id ∧ o = outcomeOf m := by
+  have e := calls_of_a_connection_see_only_it ks ops c hc
+  have h' : Out.done t o ∈ (run init ((coreOps (opsOf c ops)).filter fun op => op != .recvRequest)).2 := by
+    rw [← e]; exact mem_coreOuts.mpr (mem_outsOf.mpr h)
+  rcases no_cross_talk _ hd t o h' with a | a | ⟨id, m, s1, s2, s3, s4⟩
+  · exact .inl a
+  · exact .inr (.inl a)
+  · refine .inr (.inr ⟨id, m, ?_, ?_, s3, s4⟩)
+    · rw [← e] at s1; exact mem_outsOf.mp (mem_coreOuts.mp s1)
+    · exact mem_opsOf_recvResponse c ops m (List.mem_filter.mp s2).1
+
+/-- closing one connection at any moment — by its peer or locally — in a process with any number of others, followed
+    by anything on any connection: every still-suspended call OF THAT CONNECTION has its event set and raises
+    "closed" when resumed; by `other_connection_is_inert` the closure touches no call of any other connection -/
+theorem close_wakes_all_of_that_connection (ks : List Nat) (ops : List MOp) (c : Nat) (hc : c < ks.length)
+    (hd : distinctLive init (coreOps (opsOf c ops)) = true)
+    (closeOp : Op) (hclose : closeOp = .eof ∨ closeOp = .cleanup) (later : List MOp) :
+    ∃ x, (mrun (minit 1 ks) (ops ++ ⟨c, .core closeOp⟩ :: later)).1[c]? = some x ∧ x.core.closed = true ∧
+      ∀ p ∈ x.core.frames, p.1 ∈ x.core.fired ∧ (xstep x (.core (.wake p.1))).2 = [.core (.done p.1 .closed)] := by
+  refine ⟨_, (connections_independent ks _ c hc).1, ?_⟩
+  have hx : (xrun (xinit 1 ks[c]) (opsOf c (ops ++ ⟨c, .core closeOp⟩ :: later))).1
+      = (xrun (xstep (xrun (xinit 1 ks[c]) (opsOf c ops)).1 (.core closeOp)).1 (opsOf c later)).1 := by
+    rw [opsOf_append, xrun_append]
+    simp [opsOf, xrun]
+  rw [hx]
+  exact close_wakes_all_with_servers ks[c] (opsOf c ops) hd closeOp hclose (opsOf c later)
+
 /-! non-vacuity -/
 example : (xrun (xinit 1 1) [.core (.call false), .core (.call false), .peerRequest ⟨80, 7, 1⟩, .handlerEnd true,
     .peerRequest ⟨10, 7, 2⟩, .core (.recvResponse { mode := 1, protocol := 10, method := some 1, callId := 2, error := -1, body := [4] }),
@@ -264,5 +329,12 @@ example : (xrun (xinit 1 2) [.core (.call false), .core (.call true), .core (.ca
        .core (.done 0 .closed), .logout 1, .cleanupRaised, .core (.done 2 .closed)] := by decide
 example : (xrun (xinit 1 0) [.core (.call false), .core .eof]).2 = [.core (.sent 0 1), .core (.closing [0]), .cleanupReturned] := by decide
 example : distinctLive init (coreOps [.core (.call false), .core .cleanup, .hookReturn]) = true := by decide
+example : (mrun (minit 1 [0, 0]) [⟨0, .core (.call false)⟩, ⟨1, .core (.call false)⟩,
+    ⟨1, .core (.recvResponse { mode := 1, protocol := 10, method := some 1, callId := 1, error := -1, body := [9] })⟩, ⟨1, .core (.wake 0)⟩,
+    ⟨1, .core .eof⟩, ⟨0, .core (.recvResponse { mode := 1, protocol := 10, method := some 1, callId := 1, error := -1, body := [4] })⟩,
+    ⟨0, .core (.wake 0)⟩]).2
+    = [(0, .core (.sent 0 1)), (1, .core (.sent 0 1)), (1, .core (.set 0)), (1, .core (.done 0 (.body [9]))), (1, .core (.closing [])),
+       (1, .cleanupReturned), (0, .core (.set 0)), (0, .core (.done 0 (.body [4])))] := by decide
+example : opsOf 1 [⟨0, .core (.call false)⟩, ⟨1, .core .eof⟩, ⟨1, .hookReturn⟩] = [.core .eof, .hookReturn] := by decide
 
 end Nx.C10
